@@ -1,5 +1,7 @@
 import ACModel.Model.Json
 import ACModel.Proofs.GroupedList
+import ACModel.Proofs.Json
+import ACModel.Props.C13
 /-
   C06 — JSON save/load round trip preserves behaviour (theorems below; see DESIGN.md §8 C06)
 -/
@@ -19,5 +21,407 @@ theorem numpyOf_base (v : Val) (h : v ≠ .str "numpy.inf") : numpyOf (base v) =
 /-- the excluded point: a category literally named "numpy.inf" does not survive -/
 theorem numpyOf_base_sentinel : numpyOf (base (.str "numpy.inf")) = .inf := by
   simp [base, numpyOf]
+
+/-! ## The round trip of one feature's order -/
+
+/-- What a `GroupedList` must satisfy for the dump to be faithful: well-formed (C13), no value is
+    the string "numpy.inf" (the sentinel of `convert_value_to_base_type`), no number prints as
+    "numpy.inf", and two leaders never print as the same JSON key (`1` and `"1"` would). -/
+structure Dumpable (keyStr : Rat → String) (g : GL) : Prop where
+  wf : g.WF
+  noSentinel : ∀ v ∈ g.values, v ≠ sentinel
+  numKey : ∀ q, Val.num q ∈ g.lst → keyStr q ≠ "numpy.inf"
+  inj : ∀ a ∈ g.lst, ∀ b ∈ g.lst, tk keyStr a = tk keyStr b → a = b
+
+theorem dumpableB_iff (keyStr : Rat → String) (g : GL) : dumpableB keyStr g = true ↔ Dumpable keyStr g := by
+  unfold dumpableB
+  simp only [Bool.and_eq_true, decide_eq_true_eq, List.all_eq_true, bne_iff_ne, ne_eq, Bool.or_eq_true, beq_iff_eq]
+  constructor
+  · rintro ⟨⟨⟨h1, h2⟩, h3⟩, h4⟩
+    refine ⟨h1, h2, fun q hq => ?_, fun a ha b hb e => ?_⟩
+    · have := h3 _ hq
+      simpa [numKeyOk] using this
+    · rcases h4 a ha b hb with h | h
+      · exact absurd e h
+      · exact h
+  · rintro ⟨h1, h2, h3, h4⟩
+    refine ⟨⟨⟨h1, h2⟩, fun v hv => ?_⟩, fun a ha b hb => ?_⟩
+    · cases v with
+      | num q => simpa [numKeyOk] using h3 q hv
+      | str s => rfl
+      | inf => rfl
+    · by_cases e : tk keyStr a = tk keyStr b
+      · exact Or.inr (h4 a ha b hb e)
+      · exact Or.inl e
+
+/-- **`json_deserialize_values_orders (json.loads (json.dumps (json_serialize_values_orders g)))`
+    succeeds and returns the same leaders, in the same order, with the same members.** -/
+theorem roundTrip_ok (keyStr : Rat → String) (g : GL) (h : Dumpable keyStr g) :
+    roundTrip keyStr g = .ok (canon g) := by
+  obtain ⟨hwf, hsent, hnum, hinj⟩ := h
+  have hwf' := (GL.wf_iff g).1 hwf
+  obtain ⟨h1, h2, h3, ⟨h4, h4'⟩, h5⟩ := hwf'
+  -- every leader and every member is a value
+  have hmemval : ∀ kv ∈ g.content, ∀ v ∈ kv.2, v ≠ sentinel := fun kv hkv v hv =>
+    hsent v (List.mem_flatMap.2 ⟨kv, hkv, hv⟩)
+  have hkeyval : ∀ kv ∈ g.content, kv.1 ≠ sentinel := fun kv hkv => hmemval kv hkv kv.1 (h5 kv hkv)
+  have hkeylst : ∀ kv ∈ g.content, kv.1 ∈ g.lst := fun kv hkv => (h3 kv.1).2 (Dict.mem_keys_of_mem hkv)
+  have hlstval : ∀ k ∈ g.lst, k ≠ sentinel := by
+    intro k hk
+    obtain ⟨vs, hvs⟩ := Dict.mem_keys.1 ((h3 k).1 hk)
+    exact hkeyval (k, vs) hvs
+  have huniq : ∀ a ∈ g.content, ∀ b ∈ g.content, a.1 = b.1 → a = b := by
+    intro a ha b hb e
+    have : a.2 = b.2 := GL.unique_of_mem h2 (k := a.1) ha (by rw [e]; exact hb)
+    exact Prod.ext e this
+  -- 1. the Python dict of base values keeps every group
+  have hbase : baseDict g = g.content.map (fun kv => (base kv.1, kv.2.map base)) := by
+    unfold baseDict
+    apply foldl_aset_map
+    have : g.content.map (fun kv => base kv.1) = (Dict.keys g.content).map base := by
+      simp [Dict.keys, List.map_map, Function.comp_def]
+    rw [this]
+    apply nodup_map_of_inj_on h2
+    intro a ha b hb e
+    obtain ⟨va, hva⟩ := Dict.mem_keys.1 ha
+    obtain ⟨vb, hvb⟩ := Dict.mem_keys.1 hb
+    exact base_inj (hkeyval _ hva) (hkeyval _ hvb) e
+  -- 2. the dumped text keeps every group
+  have htkn : ((Dict.keys g.content).map (tk keyStr)).Nodup := by
+    apply nodup_map_of_inj_on h2
+    intro a ha b hb e
+    exact hinj a ((h3 a).2 ha) b ((h3 b).2 hb) e
+  have hser : (serialize keyStr g).content = g.content.map (fun kv => (tk keyStr kv.1, kv.2.map base)) := by
+    unfold serialize
+    simp only [hbase]
+    rw [foldl_aset_map (g.content.map (fun kv => (base kv.1, kv.2.map base))) (fun p => textKey keyStr p.1) (fun p => p.2)]
+    · simp [List.map_map, Function.comp_def, tk]
+    · have : (g.content.map (fun kv => (base kv.1, kv.2.map base))).map (fun p => textKey keyStr p.1) =
+          (Dict.keys g.content).map (tk keyStr) := by
+        simp [Dict.keys, List.map_map, Function.comp_def, tk]
+      rw [this]; exact htkn
+  -- 3. the loaded, numpy-converted content
+  have hconv : convContent (serialize keyStr g).content = g.content.map (fun kv => (lookupKey keyStr kv.1, kv.2)) := by
+    unfold convContent
+    rw [hser]
+    have hfold := foldl_aset_map (g.content.map (fun kv => (tk keyStr kv.1, kv.2.map base)))
+      (fun p => ckey p.1) (fun p => p.2.map numpyOf) (by
+        have : (g.content.map (fun kv => (tk keyStr kv.1, kv.2.map base))).map (fun p => ckey p.1) =
+            ((Dict.keys g.content).map (tk keyStr)).map ckey := by
+          simp [Dict.keys, List.map_map, Function.comp_def]
+        rw [this]
+        exact nodup_map_of_inj_on htkn (fun a _ b _ e => ckey_inj e))
+    unfold ckey at hfold
+    rw [hfold, List.map_map]
+    apply List.map_congr_left
+    intro kv hkv
+    simp only [Function.comp_def]
+    have hk : (if tk keyStr kv.1 = "numpy.inf" then CKey.inf else CKey.s (tk keyStr kv.1)) = lookupKey keyStr kv.1 :=
+      ckey_tk (hkeyval kv hkv) (fun q e => hnum q (e ▸ hkeylst kv hkv))
+    have hm : (kv.2.map base).map numpyOf = kv.2 := by
+      rw [List.map_map]
+      conv => rhs; rw [← List.map_id kv.2]
+      apply List.map_congr_left
+      intro v hv
+      exact numpyOf_base' (hmemval kv hkv v hv)
+    rw [hk, hm]
+  -- 4. the order list
+  have hord : (serialize keyStr g).order.map numpyOf = g.lst := by
+    unfold serialize
+    simp only [List.map_map]
+    conv => rhs; rw [← List.map_id g.lst]
+    apply List.map_congr_left
+    intro v hv
+    exact numpyOf_base' (hlstval v hv)
+  -- 5. every order value is found under its key
+  have hlk : ∀ a ∈ g.content, ∀ b ∈ g.content, lookupKey keyStr a.1 = lookupKey keyStr b.1 → a = b := by
+    intro a ha b hb e
+    apply huniq a ha b hb
+    have ea := ckey_tk (keyStr := keyStr) (hkeyval a ha) (fun q e => hnum q (e ▸ hkeylst a ha))
+    have eb := ckey_tk (keyStr := keyStr) (hkeyval b hb) (fun q e => hnum q (e ▸ hkeylst b hb))
+    rw [← ea, ← eb] at e
+    exact hinj a.1 (hkeylst a ha) b.1 (hkeylst b hb) (ckey_inj e)
+  have hfound : ∀ k ∈ g.lst, aget? (convContent (serialize keyStr g).content) (lookupKey keyStr k) = some (g.get k) := by
+    intro k hk
+    obtain ⟨vs, hvs⟩ := Dict.mem_keys.1 ((h3 k).1 hk)
+    have hget : g.get k = vs := by
+      unfold GL.get; rw [(Dict.get?_eq_some h2).2 hvs]; rfl
+    rw [hconv, hget]
+    exact aget?_map_of_mem g.content (fun kv => lookupKey keyStr kv.1) (fun kv => kv.2) (k, vs) hlk hvs
+  -- 6. the loop and the dict constructor
+  unfold roundTrip deserialize
+  rw [hord, foldlM_found _ _ g.get g.lst [] h1 (by simp) hfound]
+  simp only [List.nil_append]
+  have := GL.ofDict_reorder (g := g) ⟨h1, h2, h3, ⟨h4, h4'⟩, h5⟩ h1 (fun k hk => hk)
+  rw [GL.ofKeys_eq_map _ h1] at this
+  exact this
+
+/-! ## The reloaded order behaves like the original -/
+
+/-- **Every reader sees the reloaded `GroupedList` as it saw the original**: same leaders in the
+    same order, same members per leader, same set of values, same `get_group`, same `contains`. -/
+theorem canon_same {g : GL} (h : g.WF) : Same g (canon g) := by
+  have hc := canon_WF h
+  have hmem := mem_canon_content h
+  have hval : ∀ v, v ∈ (canon g).values ↔ v ∈ g.values := by
+    intro v
+    rw [GL.C13_values_agree, GL.C13_values_agree]
+    constructor
+    · rintro ⟨kv, hkv, hv⟩; exact ⟨kv, (hmem kv).1 hkv, hv⟩
+    · rintro ⟨kv, hkv, hv⟩; exact ⟨kv, (hmem kv).2 hkv, hv⟩
+  refine ⟨rfl, ?_, hval, ?_, ?_⟩
+  · intro k
+    by_cases hk : k ∈ g.lst
+    · obtain ⟨vs, hvs⟩ := Dict.mem_keys.1 (h.2.2.1 k hk)
+      rw [GL.C13_get_agrees h hvs, GL.C13_get_agrees hc ((hmem _).2 hvs)]
+    · rw [GL.C13_get_absent hk h, GL.C13_get_absent (g := canon g) hk hc]
+  · intro a
+    cases a with
+    | nan => rw [GL.C13_getGroup_nan, GL.C13_getGroup_nan]
+    | val v =>
+      by_cases hv : v ∈ g.values
+      · obtain ⟨kv, hkv, hvk⟩ := (GL.C13_values_agree g v).1 hv
+        rw [GL.C13_getGroup_agrees h hkv hvk, GL.C13_getGroup_agrees hc ((hmem kv).2 hkv) hvk]
+      · rw [GL.C13_getGroup_unknown hv, GL.C13_getGroup_unknown (fun hc' => hv ((hval v).1 hc'))]
+  · intro a
+    cases a with
+    | nan => rw [GL.C13_contains_nan, GL.C13_contains_nan]
+    | val v =>
+      rw [Bool.eq_iff_iff, GL.C13_contains_agrees, GL.C13_contains_agrees]
+      constructor
+      · rintro ⟨kv, hkv, hv⟩; exact ⟨kv, (hmem kv).1 hkv, hv⟩
+      · rintro ⟨kv, hkv, hv⟩; exact ⟨kv, (hmem kv).2 hkv, hv⟩
+
+/-- the loader's normal form is a fixed point: a second dump-and-load changes nothing, so
+    **serialising the reloaded object yields the same JSON again** -/
+theorem canon_idem {g : GL} (h : g.WF) : canon (canon g) = canon g := by
+  have hs := canon_same h
+  unfold canon
+  simp only [GL.mk.injEq, true_and]
+  apply List.map_congr_left
+  intro k _
+  have := hs.get k
+  unfold canon at this
+  rw [this]
+
+theorem dumpable_canon {keyStr : Rat → String} {g : GL} (h : Dumpable keyStr g) : Dumpable keyStr (canon g) :=
+  ⟨canon_WF h.wf, fun v hv => h.noSentinel v ((canon_same h.wf).mem v |>.1 hv), h.numKey, h.inj⟩
+
+/-- dump → load → dump → load: the second load returns what the first returned -/
+theorem roundTrip_twice (keyStr : Rat → String) (g : GL) (h : Dumpable keyStr g) :
+    roundTrip keyStr (canon g) = .ok (canon g) := by
+  rw [roundTrip_ok keyStr (canon g) (dumpable_canon h), canon_idem h.wf]
+
+/-! ## Labels, label table and transform only read what `Same` preserves -/
+open Disc
+
+theorem labelsOf_same {g g' : GL} (h : Same g g') (isQuant : Bool) (strNan : Option String) (outFloat : Bool) :
+    labelsOf g' isQuant strNan outFloat = labelsOf g isQuant strNan outFloat := by
+  unfold labelsOf withNanLabel
+  rw [h.lst]
+
+theorem tableOf_same {g g' : GL} (h : Same g g') (labels : List Val) : tableOf g' labels = tableOf g labels := by
+  unfold tableOf
+  rw [h.lst]
+  congr 1
+  funext acc gl
+  rw [h.get]
+
+theorem transformQuantCol_same {g g' : GL} (h : Same g g') (f : String) (t : LabelTable) (strNan : Option String)
+    (c : Col) : transformQuantCol f g' t strNan c = transformQuantCol f g t strNan c := by
+  have hq : quantCell g' t strNan = quantCell g t strNan := by
+    funext cell
+    cases cell with
+    | some x => simp only [quantCell, h.lst]
+    | none => simp only [quantCell, nanCellOut, nanLeaderOf, h.grp]
+  unfold transformQuantCol
+  simp only [h.lst, h.cont, hq]
+
+theorem transformQualCol_same {g g' : GL} (h : Same g g') (f : String) (t : LabelTable) (strNan strDefault : Option String)
+    (c : Col) : transformQualCol f g' t strNan strDefault c = transformQualCol f g t strNan strDefault c := by
+  have hd : ∀ v, decide (v ∉ g'.values) = decide (v ∉ g.values) := fun v => by
+    rw [decide_eq_decide]; exact not_congr (h.mem v)
+  have hdef : hasDefault g' strDefault = hasDefault g strDefault := by
+    unfold hasDefault
+    cases strDefault with
+    | none => rfl
+    | some d => simp only [decide_eq_decide]; exact h.mem _
+  have hp : qualPrepared g' strNan strDefault = qualPrepared g strNan strDefault := by
+    funext cell
+    cases cell with
+    | none => rfl
+    | some v => simp only [qualPrepared, hd, hdef]
+  have hu : unexpected g' = unexpected g := by
+    funext cell
+    cases cell with
+    | none => rfl
+    | some v => simp only [unexpected, hd]
+  unfold transformQualCol
+  simp only [hp, hu]
+
+/-! ## The whole object -/
+
+/-- the orders of two objects are read the same way, feature by feature -/
+def OrdersSame (o o' : List (String × GL)) : Prop :=
+  ∀ f, match aget? o f, aget? o' f with
+    | some g, some g' => Same g g'
+    | none, none => True
+    | _, _ => False
+
+theorem labelsPerValues_same (s : Disc) (o' : List (String × GL)) (l : List (String × LabelTable))
+    (h : OrdersSame s.orders o') (outFloat : Bool) :
+    Disc.labelsPerValues { s with orders := o', lpv := l } outFloat = Disc.labelsPerValues s outFloat := by
+  unfold Disc.labelsPerValues
+  congr 1
+  funext acc f
+  have hf := h f
+  cases h1 : aget? s.orders f <;> cases h2 : aget? o' f <;> simp only [h1, h2] at hf ⊢
+  · rw [labelsOf_same hf]
+    cases labelsOf _ (decide (f ∈ s.quant)) s.strNan outFloat with
+    | error e => rfl
+    | ok labels => simp only [tableOf_same hf]
+
+theorem fit_same (s : Disc) (o' : List (String × GL)) (l : List (String × LabelTable))
+    (h : OrdersSame s.orders o') {t : List (String × LabelTable)} (hfit : s.fit = .ok { s with lpv := t }) :
+    Disc.fit { s with orders := o', lpv := l } = .ok { s with orders := o', lpv := t } := by
+  unfold Disc.fit at hfit ⊢
+  have hany : (s.features.any fun f => (aget? o' f).isNone) = (s.features.any fun f => (aget? s.orders f).isNone) := by
+    congr 1
+    funext f
+    have hf := h f
+    cases h1 : aget? s.orders f <;> cases h2 : aget? o' f <;> simp only [h1, h2] at hf ⊢ <;> rfl
+  simp only [hany, labelsPerValues_same s o' l h]
+  split at hfit
+  · cases hfit
+  · rename_i hno
+    simp only [hno]
+    cases hl : s.labelsPerValues s.outFloat with
+    | error e => rw [hl] at hfit; cases hfit
+    | ok t' =>
+      rw [hl] at hfit
+      simp only [Except.ok.injEq] at hfit
+      have : t' = t := by
+        have := congrArg Disc.lpv hfit
+        exact this
+      simp [this]
+
+theorem transform_same (s : Disc) (o' : List (String × GL)) (h : OrdersSame s.orders o') (x : Frame) :
+    Disc.transform { s with orders := o' } x = Disc.transform s x := by
+  have hq : Disc.quantStep { s with orders := o' } = Disc.quantStep s := by
+    funext acc f
+    have hf := h f
+    unfold Disc.quantStep
+    cases h1 : aget? s.orders f <;> cases h2 : aget? o' f <;> simp only [h1, h2] at hf ⊢
+    · cases aget? s.lpv f <;> cases colOf acc f <;> simp only [transformQuantCol_same hf]
+  have hl : Disc.qualStep { s with orders := o' } = Disc.qualStep s := by
+    funext acc f
+    have hf := h f
+    unfold Disc.qualStep
+    cases h1 : aget? s.orders f <;> cases h2 : aget? o' f <;> simp only [h1, h2] at hf ⊢
+    · cases aget? s.lpv f <;> cases colOf acc f <;> simp only [transformQualCol_same hf]
+  have hn : Disc.nanStep { s with orders := o' } = Disc.nanStep s := by
+    funext acc fd
+    rfl
+  unfold Disc.transform
+  rw [hq, hl, hn]
+  rfl
+
+theorem aget?_map_snd {β γ : Type} (h : β → γ) : ∀ (l : List (String × β)) (k : String),
+    aget? (l.map (fun p => (p.1, h p.2))) k = (aget? l k).map h
+  | [], _ => rfl
+  | (k', v) :: t, k => by
+    simp only [List.map_cons, aget?]
+    split
+    · rfl
+    · exact aget?_map_snd h t k
+
+theorem mem_of_aget? {β : Type} : ∀ {l : List (String × β)} {k : String} {v : β}, aget? l k = some v → (k, v) ∈ l
+  | (k', v') :: t, k, v, h => by
+    simp only [aget?] at h
+    split at h
+    · rename_i e; cases h; rw [e]; exact List.mem_cons_self
+    · exact List.mem_cons_of_mem _ (mem_of_aget? h)
+
+theorem ordersSame_canon {o : List (String × GL)} (h : ∀ fo ∈ o, fo.2.WF) :
+    OrdersSame o (o.map (fun fo => (fo.1, canon fo.2))) := by
+  intro f
+  rw [aget?_map_snd]
+  cases h1 : aget? o f with
+  | none => trivial
+  | some g => exact canon_same (h (f, g) (mem_of_aget? h1))
+
+theorem reloadOrders_ok (keyStr : Rat → String) : ∀ (o : List (String × GL)), (∀ fo ∈ o, Dumpable keyStr fo.2) →
+    Disc.reloadOrders keyStr o = .ok (o.map (fun fo => (fo.1, canon fo.2)))
+  | [], _ => rfl
+  | (f, g) :: t, h => by
+    unfold Disc.reloadOrders
+    rw [roundTrip_ok keyStr g (h (f, g) List.mem_cons_self)]
+    simp only [reloadOrders_ok keyStr t (fun fo hfo => h fo (List.mem_cons_of_mem _ hfo)), Except.map, List.map_cons]
+
+/-- **The JSON round trip preserves behaviour.**  For a fitted object whose orders are all
+    dumpable, `load_discretizer(json.loads(json.dumps(obj.to_json())))` succeeds, rebuilds the same
+    label table, and its `transform` returns on *every* frame exactly what the original returns —
+    the same output or the same rejection. -/
+theorem reload_behaviour (keyStr : Rat → String) (s : Disc) (t : List (String × LabelTable))
+    (hd : ∀ fo ∈ s.orders, Dumpable keyStr fo.2) (hfit : s.fit = .ok { s with lpv := t }) :
+    ∃ s2, s.reload keyStr = .ok s2 ∧ s2.lpv = t ∧ s2.features = s.features ∧
+      ∀ x, s2.transform x = Disc.transform { s with lpv := t } x := by
+  have hos := ordersSame_canon (o := s.orders) (fun fo hfo => (hd fo hfo).wf)
+  refine ⟨{ s with orders := s.orders.map (fun fo => (fo.1, canon fo.2)), lpv := t }, ?_, rfl, rfl, ?_⟩
+  · unfold Disc.reload
+    rw [reloadOrders_ok keyStr s.orders hd]
+    exact fit_same s _ [] hos hfit
+  · intro x
+    exact transform_same { s with lpv := t } _ hos x
+
+/-- … and an object whose `fit` fails (it cannot be a fitted object) is not made loadable by the
+    round trip either: the reload fails in the same way. -/
+theorem reload_error (keyStr : Rat → String) (s : Disc) (e : Err)
+    (hd : ∀ fo ∈ s.orders, Dumpable keyStr fo.2) (hfit : s.fit = .error e) : s.reload keyStr = .error e := by
+  have hos := ordersSame_canon (o := s.orders) (fun fo hfo => (hd fo hfo).wf)
+  unfold Disc.reload
+  rw [reloadOrders_ok keyStr s.orders hd]
+  unfold Disc.fit at hfit ⊢
+  have hany : (s.features.any fun f => (aget? (s.orders.map (fun fo => (fo.1, canon fo.2))) f).isNone) =
+      (s.features.any fun f => (aget? s.orders f).isNone) := by
+    congr 1
+    funext f
+    rw [aget?_map_snd]
+    cases aget? s.orders f <;> rfl
+  simp only [hany, labelsPerValues_same s _ [] hos]
+  split at hfit
+  · rename_i hyes; simp only [hyes, if_true]; exact hfit
+  · rename_i hno
+    simp only [hno]
+    cases hl : s.labelsPerValues s.outFloat with
+    | error e' => rw [hl] at hfit; exact hfit
+    | ok t' => rw [hl] at hfit; cases hfit
+
+/-! ## Non-vacuity, and the hypotheses are needed -/
+
+private def ks (q : Rat) : String := toString q.num ++ (if q.den = 1 then ".0" else "/" ++ toString q.den)
+
+/-- quantiles `1.0 | 2.5 (← 2.0) | inf`, content kept in another order than the list -/
+private def gq : GL := ⟨[.num 1, .num (5/2), .inf], [(.inf, [.inf]), (.num (5/2), [.num 2, .num (5/2)]), (.num 1, [.num 1])]⟩
+
+example : Dumpable ks gq := by
+  refine ⟨by decide +kernel, by decide +kernel, ?_, by decide +kernel⟩
+  intro q hq
+  have : q = 1 ∨ q = 5/2 := by
+    simp only [gq, List.mem_cons, Val.num.injEq, List.mem_nil_iff, or_false, reduceCtorEq] at hq
+    exact hq
+  rcases this with rfl | rfl <;> decide +kernel
+
+example : roundTrip ks gq = .ok ⟨[.num 1, .num (5/2), .inf], [(.num 1, [.num 1]), (.num (5/2), [.num 2, .num (5/2)]), (.inf, [.inf])]⟩ := by
+  decide +kernel
+
+/-- categories `"1"` and `1` print as the same JSON key: the dump loses a group (what the code does
+    as well; `Dumpable.inj` excludes it) -/
+private def gmix : GL := ⟨[.str "1.0", .num 1], [(.str "1.0", [.str "1.0"]), (.num 1, [.num 1, .num 3])]⟩
+example : gmix.WF ∧ roundTrip ks gmix ≠ .ok (canon gmix) := by decide +kernel
+
+/-- a category called "numpy.inf" comes back as the number `inf` -/
+private def gsent : GL := ⟨[.str "numpy.inf"], [(.str "numpy.inf", [.str "numpy.inf"])]⟩
+example : gsent.WF ∧ roundTrip ks gsent ≠ .ok (canon gsent) := by decide +kernel
 
 end C06
